@@ -4,6 +4,7 @@ To add an area: `import Pygom.Ops<Area>` and append `handle<Area>` to `handlers`
 -/
 import Pygom.Ops
 import Pygom.OpsIntegrate
+import Pygom.OpsParams
 
 namespace Pygom
 open Lean (Json)
@@ -11,6 +12,7 @@ open Lean (Json)
 def handlers : List (String → Json → Option (Except String Json)) :=
   [ handleCore
   , handleIntegrate
+  , handleParams
   ]
 
 def handle (j : Json) : Json :=
